@@ -29,13 +29,13 @@ def build(ck):
 
 RULE = ("configurations = MaxEvaluationCost {60,400} x MaxCallDepth {6,12} x StackSize {40,80} x MaxArraySize=MaxMappingSize {8,64} x "
         "MaxStringLength {32,200} x MaxBufferSize {16,64} (quick: the base configuration and the 6 one-factor changes; thorough: all 64), "
-        "each a separate boot; programs (261 per configuration): 8 loop forms (while(1), for(;;), do-while, while(i--), for with constant / "
+        "each a separate boot; programs (288 per configuration): 8 loop forms (while(1), for(;;), do-while, while(i--), for with constant / "
         "local bound, nested foreach over array / mapping) x 7 bodies (empty, call, catch(expr), catch{block}, efun with callback, "
         "catch of an endless loop, call_other); catch nestings 1..3 around an endless loop, a loop after a caught one, while(1) around "
         "catch(catch(loop)); endless recursion: direct, mutual, 3-cycle, through local/functional/anonymous/efun/bound function pointers, "
         "call_other, simul_efun, filter (funptr, by name, mapping), map (array, mapping, string), sort_array, unique_array, unique_mapping, "
         "implode with function, catch nestings 1..3, catch inside a loop, create() of a clone, wide frames, 12 arguments, varargs spread; "
-        "wide expressions (aggregates and calls with 30/60/120 locals, globals, strings, numbers); 61 value builders (+, +=, int/float "
+        "wide expressions (aggregates and calls with 30/60/120 locals, globals, strings, numbers); 78 value builders (17 of them self-append / self-add with the variable as the only holder: local, global, array element, mapping value) (+, +=, int/float "
         "conversion, repeat_string, replace_string, sprintf padding, implode, range assignment, read_bytes/read_file/read_buffer, "
         "save/restore_variable, allocate*, explode, map/filter/sort/unique, keys/values, call_other on an array, all_inventory, children, "
         "mapping insert by index, m+m, m+=m, m*m, buffer +, literal aggregates of 70) each in a 9-step doubling or +1 loop that crosses "
